@@ -24,8 +24,12 @@ RULE = ("histories of write calls: (a) every composition of n frames (n<=5 quick
         "{cell} x {time}; (b) ragged histories: 2-5 batches whose atom count / cell / time presence is perturbed at "
         "random; (c) HDF5 append mode on a file holding 0-3 frames; (d) crash points: after the k-th write, after "
         "flush, before close, flush before the first write / twice / with nothing written, and HDF5 append mode on an "
-        "existing file, by os._exit and SIGKILL in a child process, for h5/nc/dcd/xtc. Non-trivial: more "
-        "than one write call or a schema change or a crash; distinct by hash of (format, history)")
+        "existing file, by os._exit and SIGKILL in a child process, for h5/nc/dcd/xtc; (e) partitions with an EMPTY part "
+        "(a write call carrying no frame) at every position; (f) the reporter shape: one frame per call handed over "
+        "without the frame axis, alone and mixed with batched calls, and with flush after every call + kill; (g) the same "
+        "singleton histories and crash points driven through DCDReporter / NetCDFReporter / XTCReporter.report() "
+        "(OpenMM's unit module replaced by a stand-in). Non-trivial: more "
+        "than one write call or a schema change or a crash; distinct by hash of (format, history, driver)")
 TRUSTED = ["harness/impl/writer_impl.py (feeds the writers, identifies frames by xyz[i,0,0], time and cell length)",
            "generator harness/props/C19.py; comparison with the model is done by vm_compute inside coqc",
            "durability: the automaton's buffering assumptions (HDF5 flush / netCDF sync / fflush for XDR write the "
@@ -47,6 +51,10 @@ STORES_CELL = {"h5", "nc", "xtc", "trr", "gro", "dtr", "dcd", "mdcrd", "lammpstr
 REQ_CELL = {"lammpstrj", "dtr"}
 REQ_TIME = {"dtr"}
 CRASH_FORMATS = {"h5": True, "nc": False, "dcd": True, "xtc": False}   # value: writes reach the OS without flush()
+SQUEEZABLE = {"h5", "nc", "xtc", "trr", "dcd", "mdcrd", "lammpstrj", "dtr"}   # write() accepts one frame without the frame axis
+# reporters that can be driven without OpenMM (format, cell, time as the reporter passes them); HDF5Reporter needs an
+# OpenMM topology object
+REPORTERS = [("dcd", True, False), ("nc", True, True), ("nc", False, True), ("nc", False, False), ("xtc", True, True)]
 
 
 def compositions(n):
@@ -89,6 +97,35 @@ def build_cases(ctx):
                                 continue
                         cases.append({"kind": "partition", "fmt": fmt, "mode": "w", "pre": [],
                                       "ops": history_from_parts(parts, cell, time), "cell": cell, "time": time})
+    # (a2) partitions with EMPTY parts (a write call that carries no frame: the theorems quantify over every list of
+    # parts, empty ones included) and (a3) the reporter shape: one frame per call, handed over without the frame axis
+    for fmt in FORMATS:
+        for cell in ((True, False) if fmt in STORES_CELL else (False,)):
+            for time in ((True, False) if fmt in STORES_TIME else (False,)):
+                if (fmt in REQ_CELL and not cell) or (fmt in REQ_TIME and not time):
+                    continue
+                base = [[2, 1], [1, 1, 1]] if quick else [[3], [2, 1], [1, 2], [1, 1, 1], [2, 2]]
+                for parts in base:
+                    for pos in range(len(parts) + 1):
+                        if quick and pos == 1 and len(parts) == 3:
+                            continue
+                        pp = parts[:pos] + [0] + parts[pos:]
+                        cases.append({"kind": "partition", "fmt": fmt, "mode": "w", "pre": [], "empty_part": True,
+                                      "ops": history_from_parts(pp, cell, time), "cell": cell, "time": time})
+                if fmt in SQUEEZABLE:
+                    for n in ((3,) if quick else (1, 2, 3, 5)):
+                        ops = [W([10 + k], cell, time) + [True] for k in range(n)]
+                        cases.append({"kind": "partition", "fmt": fmt, "mode": "w", "pre": [], "squeezed": True,
+                                      "ops": ops, "cell": cell, "time": time})
+                    # squeezed and batched calls mixed
+                    ops = [W([10], cell, time) + [True], W([11, 12], cell, time), W([13], cell, time) + [True]]
+                    cases.append({"kind": "partition", "fmt": fmt, "mode": "w", "pre": [], "squeezed": True,
+                                  "ops": ops, "cell": cell, "time": time})
+    # (a4) the same singleton histories driven through mdtraj's reporters (report() = write one frame + flush)
+    for fmt, cell, time in REPORTERS:
+        for n in ((3,) if quick else (1, 2, 3, 5)):
+            cases.append({"kind": "partition", "fmt": fmt, "mode": "w", "pre": [], "squeezed": True, "via": "reporter",
+                          "ops": [W([10 + k], cell, time) + [True] for k in range(n)], "cell": cell, "time": time})
     # (b) ragged histories
     for fmt in FORMATS:
         for _ in range(30 if quick else 250):
@@ -160,6 +197,42 @@ def build_cases(ctx):
             crash.append({"kind": "crash", "fmt": fmt, "mode": "w", "pre": [],
                           "ops": [W([10, 11], True, t), ["flush"], W([12, 13], True, t), ["flush"], ["flush"],
                                   W([14], True, t), ["crash", "exit"]]})
+    # the reporter loop (mdtraj/reporters/basereporter.py:report): one frame per call without the frame axis, flush()
+    # after every call, killed between two reports
+    for fmt in CRASH_FORMATS:
+        for n in ((3,) if quick else (1, 2, 5)):
+            ops = []
+            for k in range(n):
+                ops += [W([10 + k], True, fmt != "dcd") + [True], ["flush"]]
+            crash.append({"kind": "crash", "fmt": fmt, "mode": "w", "pre": [], "ops": ops + [["crash", "kill"]],
+                          "squeezed": True})
+            crash.append({"kind": "crash", "fmt": fmt, "mode": "w", "pre": [], "squeezed": True,
+                          "ops": ops + [W([10 + n], True, fmt != "dcd") + [True], ["crash", "kill"]]})
+    # the same loop driven through mdtraj's own reporters (DCDReporter, NetCDFReporter, XTCReporter; OpenMM's unit module
+    # replaced by a stand-in): report() x n, killed between two reports / after close
+    for fmt, cell, time in REPORTERS:
+        if not (cell and (time or fmt == "dcd")):
+            continue
+        for n in ((2,) if quick else (1, 2, 4, 9)):
+            ops = []
+            for k in range(n):
+                ops += [W([10 + k], cell, time) + [True], ["flush"]]
+            crash.append({"kind": "crash", "fmt": fmt, "mode": "w", "pre": [], "via": "reporter", "squeezed": True,
+                          "ops": ops + [["crash", "kill"]]})
+        crash.append({"kind": "crash", "fmt": fmt, "mode": "w", "pre": [], "via": "reporter", "squeezed": True,
+                      "ops": [W([10], cell, time) + [True], ["flush"], W([11], cell, time) + [True], ["flush"], ["close"],
+                              ["crash", "kill"]]})
+    # XTCReporter(append=True) continues an EXISTING file: its old frames and every reported frame must survive a kill at
+    # any operation boundary (right after the reporter is constructed, after the k-th report)
+    for pre in ([[1, 2]] if quick else [[1, 2], [1], [1, 2, 3, 4, 5]]):
+        for n in ((0, 1) if quick else (0, 1, 2, 3)):
+            ops = []
+            for k in range(n):
+                ops += [W([10 + k], True, True) + [True], ["flush"]]
+            crash.append({"kind": "crash", "fmt": "xtc", "mode": "a", "pre": pre, "via": "reporter", "squeezed": True,
+                          "ops": ops + [["crash", "kill"]]})
+        crash.append({"kind": "crash", "fmt": "xtc", "mode": "a", "pre": pre, "via": "reporter", "squeezed": True,
+                      "ops": [W([10], True, True) + [True], ["flush"], ["close"], ["crash", "kill"]]})
     # long runs: total frame counts that cross 8, 16, 32 (header refresh intervals, library chunk sizes, stdio buffer
     # sizes), written one frame per call and several frames per call, every write followed by flush() where the
     # format buffers, killed after the last write
@@ -353,8 +426,10 @@ def run_cases(ctx, cases):
     for hi, (c, o) in enumerate(hist):
         ws = write_ops(c)
         nontrivial = len(ws) > 1
-        ctx.count({"fmt": c["fmt"], "mode": c["mode"], "pre": c["pre"], "ops": c["ops"]}, nontrivial=nontrivial,
-                  bucket="%s/%s" % (c["fmt"], c["kind"]))
+        ctx.count({"fmt": c["fmt"], "mode": c["mode"], "pre": c["pre"], "ops": c["ops"], "via": c.get("via", "file object")},
+                  nontrivial=nontrivial,
+                  bucket="%s/%s%s" % (c["fmt"], c["kind"], "-reporter" if c.get("via") else "-emptypart" if c.get("empty_part")
+                                      else "-squeezed" if c.get("squeezed") else ""))
         fmt = c["fmt"]
         vn = VNAME.get(explained_case(hi, fmt))
         acc, sch = expected_accept(c)
@@ -423,8 +498,9 @@ def run_cases(ctx, cases):
         fe["by_format"][c["fmt"]] = fe["by_format"].get(c["fmt"], 0) + 1
     fe["method"] = "child process runs the history and is terminated by os._exit / SIGKILL at the crash point; parent md.load()s"
     for i, (c, o) in enumerate(crash):
-        ctx.count({"fmt": c["fmt"], "mode": c.get("mode"), "pre": c.get("pre"), "ops": c["ops"]}, nontrivial=True,
-                  bucket="%s/crash%s" % (c["fmt"], "-append" if c.get("mode") == "a" else ""))
+        ctx.count({"fmt": c["fmt"], "mode": c.get("mode"), "pre": c.get("pre"), "ops": c["ops"],
+                   "via": c.get("via", "file object")}, nontrivial=True,
+                  bucket="%s/crash%s" % (c["fmt"], "-reporter" if c.get("via") else "-append" if c.get("mode") == "a" else ""))
         load = o["load"]
         fmt = c["fmt"]
         dops, flushed, written, since = [], [], [], []
@@ -450,7 +526,8 @@ def run_cases(ctx, cases):
                 flushed += since
                 since = []
         got = None if "load_err" in load else load["frames"]
-        tags = {"fmt": fmt, "kind": "crash", "how": c["ops"][-1][1], "mode": c.get("mode", "w")}
+        tags = {"fmt": fmt, "kind": "crash", "how": c["ops"][-1][1], "mode": c.get("mode", "w"), "via": c.get("via", "file object"),
+                "n_writes": sum(1 for op in c["ops"] if op[0] == "write")}
         if not written:
             continue        # nothing written: any outcome (no file, unreadable empty file) is acceptable
         if got is None:
@@ -477,10 +554,11 @@ def run_cases(ctx, cases):
         if not any(d.startswith("DWrite") for d in dops):
             continue
         # the writer as found: header refreshed after every frame (1), reader recomputes the count (false)
-        hcases.append(("(%s, false, %s, %s)" % (cnat(1), clist(dops), clist([cnat(x) for x in o["load"]["frames"]])), "true"))
+        hcases.append(("(dcd_header_every, false, %s, %s)" % (clist(dops), clist([cnat(x) for x in o["load"]["frames"]])), "true"))
         hidx.append(i)
     if hcases:
-        badh, errh = ctx.coq_mismatches(["MD.Writer.Model"], ("nat * bool * list dop * list nat", "bool"), "Bool.eqb",
+        badh, errh = ctx.coq_mismatches(["MD.Writer.Model", "MD.Writer.Dsl", "MD.Gen.WriterPrograms"],
+                                        ("nat * bool * list dop * list nat", "bool"), "Bool.eqb",
                                         "header_crash_ok", hcases)
         if errh:
             ctx.break_("correspondence:coqc-evaluation(header)", "\n".join(errh))
@@ -1154,7 +1232,43 @@ def translate_writer(repo, entry):
                 continue                        # the prints of one frame (MODEL, ATOM lines, ENDMDL) are one mutation
             out.append(x)
         return out
+    # layout facts readable from the source: does the signature carry time / cell, is the default time the index
+    # within the call (.pdb: one CRYST1 record per file, its cell is outside this property, see C01)
+    allsrc = src + "".join(helpers.values())
+    LAYOUT_FACTS[key] = ("FTime" in api, "FCell" in api and key != "pdb",
+                         bool(_re.search(r"if\s+time\s+is\s+None\s*:\s*\n\s*time\s*=\s*(?:np|numpy)\.arange\(", allsrc)))
     return dedupe(steps), api
+
+
+LAYOUT_FACTS = {}
+
+
+def dcd_header_every(repo):
+    """how often write_dcdstep (dcdplugin.c) brings the frame count in the DCD header (NSET, at NFILE_POS) up to date:
+    1 when `fio_fseek(fd, NFILE_POS, ..); fio_write_int32(fd, curframe);` stands at the top level of the function
+    body (every time step).  Anything else (a condition around it, a helper) is outside this recogniser."""
+    with open(_os.path.join(repo, "mdtraj/formats/dcd/src/dcdplugin.c")) as fh:
+        text = fh.read()
+    text = _re.sub(r"/\*.*?\*/", " ", text, flags=_re.S)
+    m = _re.search(r"static\s+int\s+write_dcdstep\s*\([^)]*\)\s*\{", text)
+    if not m:
+        raise WOutside("write_dcdstep not found in dcdplugin.c")
+    depth, i, body_top = 1, m.end(), []
+    while i < len(text) and depth > 0:
+        ch = text[i]
+        if ch == "{":
+            depth += 1
+        elif ch == "}":
+            depth -= 1
+        body_top.append(ch if depth == 1 else " ")
+        i += 1
+    top = "".join(body_top)
+    stmts = [x.strip() for x in top.split(";")]
+    for a, b in zip(stmts, stmts[1:]):
+        if _re.fullmatch(r"fio_fseek\s*\(\s*fd\s*,\s*NFILE_POS\s*,\s*FIO_SEEK_SET\s*\)", a) and \
+                _re.fullmatch(r"fio_write_int32\s*\(\s*fd\s*,\s*curframe\s*\)", b):
+            return 1
+    raise WOutside("write_dcdstep does not refresh the header count unconditionally at its top level")
 
 
 def build_writer_gen(repo):
@@ -1171,14 +1285,30 @@ def build_writer_gen(repo):
             steps, api = translate_writer(repo, entry)
             lines.append("Definition %s_write : wprog :=\n  %s." % (key, _seqterm(steps)))
             lines.append("Definition %s_api : list field := %s." % (key, clist(api)))
+            if lay:
+                lines.append("Definition %s_layout_facts : bool * bool * bool := (%s, %s, %s)." % (
+                    (key,) + tuple(cbool(x) for x in LAYOUT_FACTS[key])))
             info["translated"].append(key)
         except WOutside as e:
             info["degraded"][key] = str(e)
             lines.append("Definition %s_write : wprog := WriterReference.%s_write.  (* degraded: %s *)" % (
                 key, key, str(e).replace("*", "x")))
             lines.append("Definition %s_api : list field := WriterReference.%s_api." % (key, key))
+            if lay:
+                lines.append("Definition %s_layout_facts : bool * bool * bool := "
+                             "(store_time %s, store_cell %s, time_index_default %s)." % (key, lay, lay, lay))
         rows.append('("%s", %s_write, %s_api)' % (key, key, key))
         lines.append("")
+    try:
+        hev = dcd_header_every(repo)
+        lines.append("(* dcdplugin.c:write_dcdstep rewrites the frame count of the header after every %d-th time step *)" % hev)
+        lines.append("Definition dcd_header_every : nat := %d." % hev)
+        info["dcd_header_every"] = hev
+    except (WOutside, OSError) as e:
+        info["degraded"]["dcd_header_every"] = str(e)
+        lines.append("Definition dcd_header_every : nat := 1.  (* degraded: %s *)" % str(e).replace("*", "x"))
+        info["dcd_header_every"] = 1
+    lines.append("")
     lines.append("Definition writers : list (string * wprog * list field) :=\n  [%s]." % ";\n   ".join(rows))
     lines.append("")
     lines.append("(* verdicts of the checkers on today's source, read by the harness *)")
@@ -1215,9 +1345,11 @@ def build_writer_gen(repo):
         obl.append("Lemma vbm_%s : check_vbm %s_write = true. Proof. vm_compute. reflexivity. Qed." % (key, key))
         if lay:
             obl.append("Lemma sem_%s : stream_sim %s %s_write. Proof. sem_stream_eq. Qed." % (key, lay, key))
+            obl.append("Lemma lay_%s : layout_agrees %s %s_layout_facts = true. Proof. vm_compute. reflexivity. Qed." % (key, lay, key))
     obl.append("Lemma sem_h5 : forall b st, sem h5_bk h5_write b st = h5_fix b st. Proof. sem_h5_eq. Qed.")
     obl.append("Lemma sem_nc : forall b st, n_fi st <= List.length (n_rows st) -> sem nc_bk nc_write b st = nc_fix b st. "
                "Proof. sem_nc_eq. Qed.")
+    obl.append("Lemma dcd_header_every_frame : dcd_header_every = 1. Proof. reflexivity. Qed.")
     obl.append("Lemma all_vbm : forallb (fun x => check_vbm (snd (fst x))) writers = true. Proof. vm_compute. reflexivity. Qed.")
     return "\n".join(lines) + "\n", "\n".join(obl) + "\n", info
 
